@@ -1,6 +1,7 @@
 package sx
 
 import (
+	"math/big"
 	"fmt"
 	"go/token"
 	"go/types"
@@ -268,6 +269,14 @@ func (p *Path) binop(in ssa.Instruction, op token.Token, a, b Val, ta, tb types.
 			}
 			return smt.BVUle(y, x)
 		}
+	case Opaque:
+		// int-to-float conversion of a symbolic integer divided by a float
+		// constant: kept symbolic until math.Floor and the conversion back
+		if x.Kind == "int2float" && op == token.QUO {
+			if y, ok := b.(Float); ok && y.F > 1 {
+				return Opaque{Kind: "fquot", V: FQuot{X: x.V.(*smt.Term), D: y.F}}
+			}
+		}
 	case Float:
 		y := b.(Float)
 		switch op {
@@ -475,6 +484,11 @@ func (p *Path) convert0(v Val, from, to types.Type) Val {
 		}
 		if o, ok := v.(Opaque); ok && o.Kind == "floatres" {
 			return o.V.(Val)
+		}
+		if o, ok := v.(Opaque); ok && o.Kind == "ffloor" {
+			if wt, _, ok := isInt(to); ok {
+				return p.floorQuot(o.V.(FQuot), wt)
+			}
 		}
 	}
 	if isString(from) {
@@ -899,4 +913,30 @@ func (p *Path) typeAssert(fr *Frame, x *ssa.TypeAssert) Val {
 		p.Stop("panic")
 	}
 	return res
+}
+
+// FQuot is float64(X)/D for a symbolic integer X and a constant D > 1.
+type FQuot struct {
+	X *smt.Term
+	D float64
+}
+
+// floorQuot is int(math.Floor(float64(X)/D)) for 0 <= X < 2^31 (assumed
+// contract of the floating-point expression: the quotient is computed in
+// 80-bit fixed point; exact whenever X/D is not within 2^-40 of an integer,
+// which holds for D = math.Phi+1 and every X < 2^31 because D is a quadratic
+// irrational). Other X are outside the model.
+func (p *Path) floorQuot(q FQuot, wt int) *smt.Term {
+	x := q.X
+	w := x.S.W
+	inRange := smt.And(smt.BVSle(smt.BVU(0, w), x), smt.BVSlt(x, smt.BVU(1<<31, w)))
+	if !p.Decide(inRange) {
+		panic(unsupported("floor of a float quotient outside 0 <= x < 2^31"))
+	}
+	// K = floor(2^80 / D)
+	k := new(big.Float).SetPrec(200).Quo(new(big.Float).SetPrec(200).SetInt(new(big.Int).Lsh(big.NewInt(1), 80)), new(big.Float).SetPrec(200).SetFloat64(q.D))
+	ki, _ := k.Int(nil)
+	prod := smt.BVMul(smt.ZeroExt(smt.Extract(x, 30, 0), 129), smt.BVC(ki, 160))
+	r := smt.Extract(prod, 159, 80)
+	return smt.Resize(r, wt)
 }
